@@ -23,11 +23,15 @@ pub fn inbound_node() -> Arc<ResourceNode> {
 
 // resource_node_list returns the slice of all existing resource nodes.
 pub fn resource_node_list() -> Vec<Arc<ResourceNode>> {
+    #[cfg(flea1lt_sentinel_rust_verif)]
+    crate::verif::sched::point("lk:stat.RESOURCE_NODE_MAP:read");
     let res_map = RESOURCE_NODE_MAP.read().unwrap();
     res_map.values().cloned().collect()
 }
 
 pub fn get_resource_node(res_name: &String) -> Option<Arc<ResourceNode>> {
+    #[cfg(flea1lt_sentinel_rust_verif)]
+    crate::verif::sched::point("lk:stat.RESOURCE_NODE_MAP:read");
     let res_map = RESOURCE_NODE_MAP.read().unwrap();
     res_map.get(res_name).cloned()
 }
@@ -42,6 +46,8 @@ pub fn get_or_create_resource_node(
         None => {
             #[cfg(flea1lt_sentinel_rust_verif)]
             crate::verif::sched::point("ns:miss");
+            #[cfg(flea1lt_sentinel_rust_verif)]
+            crate::verif::sched::point("lk:stat.RESOURCE_NODE_MAP:read");
             if RESOURCE_NODE_MAP.read().unwrap().len() >= DEFAULT_MAX_RESOURCE_AMOUNT {
                 logging::warn!(
                     "[get_or_create_resource_node] Resource amount exceeds the threshold {}",
@@ -50,6 +56,8 @@ pub fn get_or_create_resource_node(
             }
             // another thread may have created the node since the lookup above:
             // insert only if it is still absent, under one write lock
+            #[cfg(flea1lt_sentinel_rust_verif)]
+            crate::verif::sched::point("lk:stat.RESOURCE_NODE_MAP:write");
             RESOURCE_NODE_MAP
                 .write()
                 .unwrap()
@@ -61,5 +69,13 @@ pub fn get_or_create_resource_node(
 }
 
 pub fn reset_resource_map() {
+    #[cfg(flea1lt_sentinel_rust_verif)]
+    crate::verif::sched::point("lk:stat.RESOURCE_NODE_MAP:write");
     RESOURCE_NODE_MAP.write().unwrap().clear();
+}
+
+/// which of this module's locks are held right now (by anybody, the caller included)
+#[cfg(flea1lt_sentinel_rust_verif)]
+pub fn verif_locks_held() -> Vec<(&'static str, bool)> {
+    vec![("stat.RESOURCE_NODE_MAP", RESOURCE_NODE_MAP.try_write().is_err())]
 }
